@@ -85,12 +85,14 @@ static inline long myth_sleep_queue_enq(myth_sleep_queue_t * q,
 					myth_sleep_queue_item_t t) {
   t->next = 0;
   long spin_failed = myth_spin_lock_body(q->ilock);
+  MYTH_VERIF_POINT(mythv_p_sleepq, q->tail);
   myth_sleep_queue_item_t tail = q->tail;
   if (tail) {
     tail->next = t;
   } else {
     q->head = t;
   }
+  MYTH_VERIF_POINT(mythv_p_sleepq, q->tail);
   q->tail = t;
   myth_spin_unlock_body(q->ilock);
   return spin_failed;		/* done */
@@ -98,9 +100,11 @@ static inline long myth_sleep_queue_enq(myth_sleep_queue_t * q,
 
 static inline myth_sleep_queue_item_t myth_sleep_queue_deq(myth_sleep_queue_t * q) {
   myth_spin_lock_body(q->ilock);
+  MYTH_VERIF_POINT(mythv_p_sleepq, q->head);
   myth_sleep_queue_item_t head = q->head;
   if (head) {
     myth_sleep_queue_item_t next = head->next;
+    MYTH_VERIF_POINT(mythv_p_sleepq, q->head);
     q->head = next;
     if (!next) {
       q->tail = 0;
